@@ -306,6 +306,9 @@ static bool has_id(const std::vector<int>& v, int x) { for (size_t i = 0; i < v.
 
 static InvocationResult invoke(const InvocationOpts& o) {
   InvocationResult res;
+  // every ninja invocation is a new process: the process-wide pool objects start out empty
+  State::kDefaultPool.current_use_ = 0; State::kDefaultPool.delayed_.clear();
+  State::kConsolePool.current_use_ = 0; State::kConsolePool.delayed_.clear();
   State* state = new State; SymDisk* disk = new SymDisk; RecStatus* status = new RecStatus; BuildConfig* config = new BuildConfig;
   std::string err;
   ManifestParser parser(state, disk);
